@@ -6,7 +6,7 @@ HOOKS = {
     "add_only": True,
 }
 ENGINES = [
-    {"name": "benum", "path": "engine/benum", "serves_properties": ["C03", "C04", "C06", "C08", "C09", "C10", "C11", "C12", "C13", "C14", "C15", "C16", "C17", "C18", "C20"],
+    {"name": "benum", "path": "engine/benum", "serves_properties": ["C01", "C02", "C03", "C04", "C06", "C08", "C09", "C10", "C11", "C12", "C13", "C14", "C15", "C16", "C17", "C18", "C20"],
      "kind_free_text": "bounded exhaustive enumeration runtime: rank<->case bijections, 16-way sharding, fork isolation with progress cell, line protocol to the driver"},
     {"name": "vsched", "path": "engine/vsched", "serves_properties": ["C05", "C07", "C08", "C19"],
      "kind_free_text": "cooperative scheduler by link-time interposition of pthread mutex/cond/create/join, futex syscall and clock_gettime + stateless DFS explorer with iterative deviation bounding, 16 forked workers sharing a work stack, determinism re-runs, deadlock/livelock/hang detection, replay of recorded choice sequences"},
@@ -19,6 +19,18 @@ NOTES = ("All checks decide by exhaustive enumeration inside stated bounds (see 
          "failed (build or harness error) and is not a verdict.")
 NOT_APPLICABLE = {}
 CHECKS = {
+    "C01": {
+        "engine": "benum", "level": "exploration",
+        "technique": "exhaustive enumeration of (data set, writer option vector) pairs - every boundary value of every field one factor at a time under all 7296 option vectors, reduced products, block-boundary and 32 MiB families, header boxes and an exhaustive sweep of the PBF header box conversion - written with the real Writer, checked by an independent PBF framing parser, read back with the real Reader and compared with a per-format carry() expectation",
+        "text": "Every boundary value of every field of nodes, ways, relations and changesets (ids up to +-2^63-1, uint32 extremes, undefined/valid/out-of-range locations, strings with structural characters and 1-4 byte UTF-8 up to 1024 bytes, 0..many tags/refs/members, discussions) is written under EVERY option vector {osm, osh, osc, pbf, osh.pbf, opl} x dense x blob compression x 32 metadata subsets x locations_on_ways x force_visible_flag x {none, gz, bz2} x pool threads and read back; plus 1-3 object products, 7999/8000/8001/16001-object blocks, blocks crossing 0.95 x 32 MiB and 32 MiB, 0..2 header boxes, and (thorough) every fixed-point coordinate through the PBF header box encoder/decoder. Read-back must equal carry(D, o); every blob must respect the format limits.",
+        "note": "The data domain is unbounded: the check covers boundary alphabets and complete option products, not all object sequences. Objects a vector cannot express (deleted objects without a visible flag, changesets in PBF, XML-inexpressible strings) are dropped for that vector and counted; behaviours pinned by the repository's tests (PBF deleted-node location, XML changeset 2^32-1) are domain restrictions.",
+    },
+    "C02": {
+        "engine": "benum", "level": "exploration",
+        "technique": "exhaustive products / strength-3 covering arrays of finite menus of free encoding choices x small abstract data sets, produced by independent specification-derived Python encoders (PBF, o5m, XML, OPL), read by the real Reader and the format parser and compared byte for byte with the canonical text of the data the file denotes; reader-against-reader agreement",
+        "text": "For each format a deterministic plan enumerates every combination of encoding choices (PBF: plain/dense/mixed groups, raw/zlib/lz4 blobs, granularity, offsets, date granularity, Info presence, unknown fields, index data, every BlobHeader size 1..65535, string-table layout, block layout; o5m: references vs inline, table wrap-around, 250-character limit, resets, sync/jump/unknown data sets, every file tail; XML: attribute orders, quoting, character references, change sections, bounds; OPL: field orders, optional fields, line endings) - full products where small, otherwise all single deviations + strength-3 covering arrays + full products of a core subset - on small data sets; the Reader's dump must equal the generator's object list and the four readers must agree.",
+        "note": "Where the format descriptions are silent (251-character o5m strings, split packed fields, interleaved nd/tag children, blobs ending within 1-9 bytes of 32 MiB) the outcome is counted, not judged. The thorough XML plan omits the 9! attribute permutations.",
+    },
     "C03": {
         "engine": "benum", "level": "exploration",
         "technique": "exhaustive enumeration of complete edit neighbourhoods (every truncation, every single-byte substitution/deletion/insertion, every length field x boundary values, every structural unit deleted/duplicated, every string slot overlong, all byte strings of length <= 2|3) of 39 small valid seed files in the four formats, each parsed under ASan in NDEBUG and assert builds in forked children with an explicit extent-checking traversal of every delivered item",
